@@ -6,7 +6,7 @@ CFG = {'streams': [{'name': 'C14',
               'shrink_field': 'ops',
               'what_fails': "verdict_code is a sum: 1 = serde_json::to_value(&graph) differs from the model's JSON encoding of the in-memory API "
                             "view (members of both sorted by key); 2 = decoding the implementation's JSON (lookup by key) does not give back the API "
-                            'view (node count, per-node attribute map, per-node edge map) - the property predicate; 4 = to_string_pretty/to_string '
+                            'view (node count, per-node attribute map, per-node edge map) - the property predicate; 4 = Graph::display_json into a file that held a longer document does not leave exactly the JSON of this graph there, or to_string_pretty/to_string '
                             "text does not re-parse to the same value; 8 = pretty_print text differs from the model's; 16 = nodes/edges/attributes "
                             "parsed back from the implementation's pretty text differ from the API view"}],
  'rule': 'graphs built through the public API (5 of 6 cases: 0-40 nodes, 10% with 0-1 nodes, 15% with 21-40, random edge sets incl. self loops, 35% '
